@@ -156,10 +156,51 @@ def check_any_ready(ctx, M, rule, tbl):
     ctx.check(ok, rule, b.def_, "any_ready == (ready counter > 0)", site=b.span, sample=[ps.describe() for ps in pss])
 
 
+def _fill_loop_form(M, b, tbl):
+    """`for ready in self.list.iter_mut() { *ready = true; }` + `self.counter = cap`: the `fill(true)` written out"""
+    from .. import scan
+    bi = M.info(b)
+    body = bi.body
+    writes = scan.field_writes(bi)
+    cw = [(blk, v) for blk, pt, v, sp in writes if pt == sfield(tbl.counter)]
+    if len(cw) != 1 or cw[0][1] != tbl.cap:
+        return False
+    nxts = [s for s in bi.sites if s.callee.name == "next" and s.args and s.arg(0)[0] == "call" and s.arg(0)[1][1] in ("iter_mut", "into_iter")]
+    if len(nxts) != 1:
+        return False
+    nxt = nxts[0]
+    it = nxt.arg(0)
+    while it[0] == "call" and it[1][1] in ("into_iter", "by_ref") and it[2]:
+        it = it[2][0]
+    if not (it[0] == "call" and it[1][1] == "iter_mut" and it[2] and it[2][0] == sfield(tbl.list)):
+        return False
+    item = ("field", ("variant", nxt.term, "Some"), 0)
+    sets = []
+    for blk in sorted(body.reachable):
+        if body.is_cleanup(blk):
+            continue
+        for st in body.stmts(blk):
+            if st["k"] == "assign" and st["lhs"]["p"] and bi.T.of_place(st["lhs"]) == item and cval(bi.T.of_rvalue(st["rv"], 0)) == 1:
+                sets.append(blk)
+    others = [blk for blk, pt, v, sp in writes if pt != item and pt != sfield(tbl.counter)]
+    se, ne = bi.outcome_edges(nxt, "Some"), bi.outcome_edges(nxt, "None")
+    lp = body.innermost_loop(nxt.block)
+    if not sets or others or not se or not ne or lp is None:
+        return False
+    ok, _ = bi.must_reach([t for _, t in se], sets, [lp[0]] + list(bi.return_blocks))
+    return ok and all(bi.guarded_by(r, ne) for r in bi.return_blocks) and not [s for s in bi.sites if s.callee.name in ("clear", "set", "fill", "toggle")]
+
+
 def check_set_all(ctx, M, rule, tbl):
     b = find_method(M, tbl.owner, "set_all_ready")
     ctx.require(b is not None, "%s::set_all_ready" % tbl.owner)
-    pss = summaries(ctx, M, b, rule)
+    try:
+        pss = summaries(ctx, M, b, rule)
+    except Inconclusive:
+        if _fill_loop_form(M, b, tbl):
+            ctx.ok(rule, b.def_, "set_all_ready sets every bit (explicit loop over the table) and the counter to the table size")
+            return
+        raise
     ok = bool(pss)
     for ps in pss:
         cw = [v for p, v in ps.writes if p == sfield(tbl.counter)]
